@@ -54,6 +54,12 @@ def gen_case(rng: random.Random, tier: str) -> dict:
     nums_all = nums + [e[0] for e in extra]
     terms, factors = gen.rand_terms(rng, frame, cats=cats, nums=nums, max_terms=4, max_order=3)
     icpt = rng.random() < 0.7
+    # categorical factors under every built-in coding and option (all paths must agree whatever the coding is)
+    for fa in factors.values():
+        if fa["kind"] == "cat" and rng.random() < 0.35:
+            fa["text"] = "C({v}, {c})".format(v=fa["var"], c=rng.choice([
+                "contr.sum", "contr.helmert", "contr.helmert(reverse=False)", "contr.helmert(scale=True)", "contr.diff", "contr.diff(backward=False)",
+                "contr.poly", "contr.SAS", "contr.treatment", "contr.sum()", "contr.SAS()"]))
     f = gen.formula_text(terms, factors, icpt, rng)
     used_t = []
     for e in extra:
